@@ -698,7 +698,8 @@ class RecordContextMatcher:
 
                 """
                 for gen in node.generators:
-                    if gen.target.id in self.data:
+                    # The loop variable may not take the place of a name calls are allowed on
+                    if gen.target.id in self.data or gen.target.id in WHITELIST_TREE:
                         raise InvalidOperation(
                             "Generator variable '{}' overwrites existing variable!".format(gen.target.id)
                         )
